@@ -105,7 +105,10 @@ class DFV:
         self.index_desc = index
 
     def copy(self):
-        return DFV(self.nrows, self.cols, self.index_desc)
+        out = DFV(self.nrows, self.cols, self.index_desc)
+        if getattr(self, "row_perm", None):
+            out.row_perm = list(self.row_perm)
+        return out
 
     def sym_getattr(self, ev, name, node, mod):
         if name == "loc":
@@ -187,6 +190,10 @@ class ILocV:
             out = self.df.copy()
             out.sampled = rows.step
             return out
+        if isinstance(rows, PermV) and all(isinstance(i, SliceV) and i.lo is None and i.hi is None and i.step is None for i in items[1:]):
+            out = self.df.copy()
+            out.row_perm = compose_rows(getattr(self.df, "row_perm", []), rows)
+            return out
         raise ev.err("unsupported .iloc index", n, mod)
 
 
@@ -247,11 +254,44 @@ class SymRange:
         return [LoopIdx(self)]
 
 
+class PermV:
+    """numpy.argsort(x): the permutation that sorts the data vector x (whatever it is); argsort of it is its inverse"""
+
+    def __init__(self, key, inverse=False):
+        self.key, self.inverse = key, inverse
+
+
+def compose_rows(word, perm):
+    """row order of table.iloc[perm] for a table whose rows are already permuted by `word`: a word over permutations and their inverses,
+    with p followed by its inverse (or the other way round) cancelled; [] is the original row order"""
+    word = list(word)
+    if word and word[-1][0] == perm.key and word[-1][1] != perm.inverse:
+        return word[:-1]
+    return word + [(perm.key, perm.inverse)]
+
+
+def lib_argsort(ev, a, k, n, mod):
+    x = a[0]
+    if isinstance(x, PermV):
+        return PermV(x.key, not x.inverse)
+    if isinstance(x, Tup) and len(x.items) == 1 and is_sym(x.items[0]):
+        x = x.items[0]                     # a comprehension over the summarised sequence: the vector of that expression
+    if is_sym(x) and as_sym(x).free_symbols:
+        return PermV(sp.srepr(as_sym(x)))
+    raise ev.err("numpy.argsort of this operand is not modelled in a table fold", n, mod)
+
+
+lib_argsort.kw = {"kind", "axis", "stable"}
+
+
 class RowV:
     """df.iloc[i, :] for the loop index i: the row as (name, elementwise value) pairs"""
 
     def __init__(self, df, const_row=None):
         self.df = df
+        if getattr(df, "row_perm", None):
+            # the rows of this table are in another order than the sequence the loop index runs over: row i belongs to another element
+            self.df = DFV(df.nrows, {k: sp.Function("ROW_OF_ANOTHER_ELEMENT")(as_sym(v)) for k, v in df.cols.items()})
         if const_row is not None:
             self.df = DFV(df.nrows, {k: linear("AT", [v, sp.Integer(const_row)], 0) for k, v in df.cols.items()})
 
@@ -436,7 +476,7 @@ DF_LIB = {
     "row.items": lib_row_items, "len": lib_len_seq,
     "pandas.DataFrame": lib_dataframe, "range": lib_range_sym, "numpy.linspace": lib_linspace,
     "numpy.min": lib_min, "numpy.max": lib_max, "numpy.amin": lib_min, "numpy.amax": lib_max,
-    "scipy.interpolate.InterpolatedUnivariateSpline": lib_ius, "numpy.gradient": lib_gradient,
+    "scipy.interpolate.InterpolatedUnivariateSpline": lib_ius, "numpy.gradient": lib_gradient, "numpy.argsort": lib_argsort,
     "identity": lib_identity, "ndarray.to_numpy": lib_to_numpy, "numpy.array": lib_np_array,
     "DataFrame.to_string": lib_df_to_string, "round": lib_round,
 }
